@@ -644,6 +644,16 @@ theorem noninterference_cells (root dl : Str) (key : List (Str × List Str)) (li
 
 /-! ## parameter-derived data type of `range` -/
 
+/-- the parameter vocabularies regenerated from the source are the documented ones (the names the
+    model's `paramBind` / `auditBind` look up by literal) -/
+theorem parameter_vocabularies_pinned :
+    Pyxv.Gen.audioQualityValues = ["voice-only", "low", "normal", "external"] ∧
+    Pyxv.Gen.caseSensitiveParamValues = ["label", "value"] ∧
+    Pyxv.Gen.auditParamNames = ["location-priority", "location-min-interval", "location-max-age", "track-changes",
+      "identify-user", "track-changes-reasons"] ∧
+    Pyxv.Gen.rangeDefaults = [("start", "1"), ("end", "10"), ("step", "1")] := by
+  decide +kernel
+
 /-- **range_decimal_iff.**  A `range` row gets `type = decimal` iff *some* parameter — written in any
     order, or left to its default — is a non-zero number written with a `.`; otherwise the type
     table's `int` stays.  (`process_range_question_type`, seeded change C05-2.) -/
